@@ -138,6 +138,7 @@ func H03_caps() {
 	vsymNote("term", ti.Name)
 	t := hNewTScreen(ti.Name)
 	caps := h03Caps(t.ti)
+	vsymAssert(len(t.keycodes) > 0, "the key table is built for every description")
 	alt := vsymChoice("alt", 2) == 1
 	sfx := vsymByte("suffix")
 	vsymAssume(vsymAnd(sfx >= 'a', sfx <= 'z')) // a following key press
